@@ -735,7 +735,13 @@ pub fn generate_expr_code(
                         create_name_lookup(compiler, l.clone(), atom, true)
                             .map(|f| Ok(CompiledCode(l.clone(), f)))
                             .unwrap_or_else(|_| {
-                                if opts.dialect().strict && printable(atom, false) {
+                                // With the integer fix, values made by macros or
+                                // embedded from files arrive as strings or
+                                // numbers, so an atom here is a name from the
+                                // source whatever bytes it is spelled with.
+                                if opts.dialect().strict
+                                    && (printable(atom, false) || opts.dialect().int_fix)
+                                {
                                     // Finally enable strictness for variable names.
                                     // This is possible because the modern macro system
                                     // takes great care to preserve as much information
